@@ -575,9 +575,18 @@ def _check_e2e(_):
         (["icpx", "-fsycl", "a.cpp"], "a.cpp", 2, {1, 9}), (["icpx", "-fsycl", "-fsycl-targets=nvptx64-nvidia-cuda,spir64", "a.cpp"], "a.cpp", 3, {1, 9, 12}),
         (["clang++", "-fsycl-is-device", "a.cpp"], "a.cpp", 1, {1, 9}),
     ]
+    # a user-defined pass that differs from the default pass in its forced include only (same defines, same include paths)
+    with open(os.path.join(d, "pi.h"), "w") as f:
+        f.write("#define FROM_PI\n")
+    with open(os.path.join(d, "c.cpp"), "w") as f:
+        f.write("int always;\n#ifdef FROM_PI\nint with_pi;\n#else\nint without_pi;\n#endif\n")
+    user = "\n".join(["[compiler.picc]", "", "[[compiler.picc.parser]]", 'flags = ["-fpi"]', 'action = "append_const"', 'dest = "passes"', 'const = "pi"', "",
+                      "[[compiler.picc.passes]]", 'name = "pi"', f'include_files = [{json.dumps(os.path.join(d, "pi.h"))}]', ""])
+    cases.append((["picc", "-fpi", "-c", "c.cpp"], "c.cpp", 2, {1, 3, 5}, user))
+    cases.append((["picc", "-c", "c.cpp"], "c.cpp", 1, {1, 5}, user))
     out = []
-    for argv, fn, npasses, lines in cases:
-        load(None, d)
+    for argv, fn, npasses, lines, *cfg in cases:
+        load(cfg[0] if cfg else None, d)
         dbp = os.path.join(d, "db.json")
         with open(dbp, "w") as f:
             json.dump([{"file": fn, "arguments": argv, "directory": d}], f)
